@@ -338,7 +338,17 @@ func corpusSpecs(prop string) []*spec.Spec {
 	case "C13":
 		return []*spec.Spec{twinConfigs("k13a", false), twinConfigs("k13b", true), sameNamedPackages("k13c")}
 	case "C14":
-		return []*spec.Spec{twinConfigs("k14a", false), twinConfigs("k14b", true), sameNamedPackages("k14c")}
+		h := sameNamedPackages("k14h")
+		// an input-free provider in the main package for the local helper to wrap
+		hb := &builder{s: h}
+		lim := hb.ptr(hb.strct("Limits", ""))
+		pl := hb.fn("NewLimits", "", nil, []int{lim}, false, false)
+		app := h.Provs[len(h.Provs)-2]
+		app.Params = append(app.Params, lim)
+		h.Injectors[0].Items = append(h.Injectors[0].Items, spec.Item{Prov: pl})
+		h.WireLocalHelper = true
+		h.Features = append(h.Features, "provider-declared-in-the-wire-file")
+		return []*spec.Spec{twinConfigs("k14a", false), twinConfigs("k14b", true), sameNamedPackages("k14c"), h}
 	case "C04", "C12":
 		var fs []*spec.Spec
 		for k := 0; k < 4; k++ {
